@@ -537,6 +537,8 @@ pub struct ValveServer {
     pub unknown_requests: u32,
     pub split_id: u32,
     pub fixed_challenges: Vec<[u8; 4]>,
+    /// pre-computed reply datagrams per kind (used instead of encoding at answer time)
+    pub fixed_frags: [Option<Vec<Vec<u8>>>; 4],
     last_transport: &'static str,
 }
 
@@ -558,6 +560,7 @@ impl ValveServer {
             unknown_requests: 0,
             split_id: 7,
             fixed_challenges: Vec::new(),
+            fixed_frags: [None, None, None, None],
             last_transport: "single",
         }
     }
@@ -583,7 +586,7 @@ impl ValveServer {
         c
     }
 
-    fn payload_for(&self, kind: Kind) -> Vec<u8> {
+    pub fn payload_for(&self, kind: Kind) -> Vec<u8> {
         match kind {
             Kind::Info => self.st.info_payload(),
             Kind::Players => self.st.players_payload(),
@@ -593,7 +596,7 @@ impl ValveServer {
     }
 
     /// The datagrams that carry `payload` (kind byte first) under `enc`.
-    pub fn encode(&mut self, payload: &[u8], enc: &KindEnc, cx: &mut Cx) -> Vec<Vec<u8>> {
+    pub fn encode(&mut self, payload: &[u8], enc: &KindEnc, draw: &mut dyn FnMut(u64) -> u64) -> Vec<Vec<u8>> {
         let mut whole = vec![0xff, 0xff, 0xff, 0xff];
         whole.extend_from_slice(payload);
         let split = match enc.split {
@@ -636,7 +639,7 @@ impl ValveServer {
             } else {
                 let min_len = remaining.saturating_sub((remaining_frags - 1) * max_chunk).max(1);
                 let max_len = (remaining - (remaining_frags - 1)).min(max_chunk).max(min_len);
-                min_len + cx.draw((max_len - min_len + 1) as u64) as usize
+                min_len + draw((max_len - min_len + 1) as u64) as usize
             };
             cuts.push(len);
             pos += len;
@@ -685,7 +688,13 @@ impl ValveServer {
     fn answer(&mut self, cx: &mut Cx, from: SocketAddr, kind: Kind) {
         let payload = self.payload_for(kind);
         let enc = self.enc[kind.idx()].clone();
-        let frags = self.encode(&payload, &enc, cx);
+        let frags = match &self.fixed_frags[kind.idx()] {
+            Some(f) => f.clone(),
+            None => {
+                let mut d = |b: u64| cx.draw(b);
+                self.encode(&payload, &enc, &mut d)
+            }
+        };
         self.used_transport.push((kind, self.last_transport));
         if frags.len() > 1 {
             cx.w.stats.probe("split_reply");
